@@ -2,6 +2,7 @@ from __future__ import annotations
 
 import asyncio
 from typing import Any, AsyncIterator, Iterable, Mapping
+from uuid import uuid4
 
 from redis.asyncio import BlockingConnectionPool
 
@@ -23,7 +24,7 @@ redis.call("ZREMRANGEBYSCORE", KEYS[1], 0, "(" .. ARGV[1])
 local current_count = redis.call("ZCOUNT", KEYS[1], ARGV[1], ARGV[2])
 if current_count < tonumber(ARGV[3]) then
     current_count = current_count + 1
-    redis.call("ZADD", KEYS[1], ARGV[2], ARGV[2])
+    redis.call("ZADD", KEYS[1], ARGV[2], ARGV[5])
     if tonumber(ARGV[4]) > 0 then
         redis.call("PEXPIRE", KEYS[1], ARGV[4])
     end
@@ -283,7 +284,9 @@ class _Redis(Backend):
         expire = int(expire * 1000)
         if self._sha.get("INCR_SLICE") is None:
             self._sha["INCR_SLICE"] = await self._client.script_load(_INCR_SLICE.replace("\n", " "))
-        return await self._client.evalsha(self._sha["INCR_SLICE"], 1, key, start, end, maxvalue, expire)
+        # the member must be unique: two calls with the same clock reading are two calls, not one sorted-set member
+        member = f"{end}:{uuid4().hex}"
+        return await self._client.evalsha(self._sha["INCR_SLICE"], 1, key, start, end, maxvalue, expire, member)
 
     async def set_add(self, key: Key, *values: str, expire: float | None = None):
         if expire is None:
